@@ -191,7 +191,7 @@ def gen_partial():
     need(len(tries) == 1, "metacommands.rad50: expected exactly one try statement")
     t = tries[0]
     need(len(t.body) == 2, "metacommands.rad50: try body changed")
-    dump_eq(t.body[0], "if len(char.upper()) != 1:\n    raise ValueError(char)", "metacommands.rad50: length guard")
+    dump_eq(t.body[0], "if not char.isascii():\n    raise ValueError(char)", "metacommands.rad50: ASCII guard")
     dump_eq(t.body[1], "val = radix50.TABLE.index(char.upper())", "metacommands.rad50: index")
     r_caught = []
     for h in t.handlers:
@@ -201,7 +201,7 @@ def gen_partial():
         need(ast.unparse(h.body[0]).startswith("reports.error('invalid-character'"), "metacommands.rad50: handler does not report invalid-character")
     idx_calls = [c for c, _ in walk_with_guards(rad50) if ast.unparse(c.func).endswith("TABLE.index")]
     need(len(idx_calls) == 1, "metacommands.rad50: TABLE.index is called outside the try")
-    out += "(* metacommands.rad50: try: if len(char.upper()) != 1: raise ValueError; val = TABLE.index(char.upper()) except <these>: report; val = 0 *)\n"
+    out += "(* metacommands.rad50: try: if not char.isascii(): raise ValueError; val = TABLE.index(char.upper()) except <these>: report; val = 0 *)\n"
     out += f"Definition rad50_caught : list string := {slist(r_caught)}.\n\n"
 
     # ---- struct.pack formats of the data directives (Model/Partial.v: pack_byte / pack_word / pack_dword / ascii_chunk) ----
